@@ -55,6 +55,33 @@ impl H for flatcontainer::impls::codec::CodecRegion<flatcontainer::impls::codec:
     }
 }
 
+impl<B: Elem + Ord> H for flatcontainer::impls::huffman_container::HuffmanContainer<B> {
+    fn of_u(u: &U) -> Option<Vec<B>> {
+        match u {
+            U::L(l) => l.iter().map(B::of_u).collect(),
+            _ => None,
+        }
+    }
+    fn to_u(v: &Vec<B>) -> U {
+        U::L(v.iter().map(|x| x.to_u()).collect())
+    }
+    fn idx_u(i: (usize, usize)) -> U {
+        U::pair(i.0, i.1)
+    }
+    fn probe(it: Self::ReadItem<'_>) -> U {
+        // a decoder stuck on a zero-length code would never end: cut and report
+        let limit = 1 << 20;
+        let v: Vec<U> = match it.decode() {
+            Ok(d) => d.take(limit).map(|x| x.to_u()).collect(),
+            Err(s) => s.iter().map(|x| x.to_u()).collect(),
+        };
+        if v.len() >= limit {
+            panic!("decode does not terminate");
+        }
+        U::L(v)
+    }
+}
+
 impl<T: Elem> H for MirrorRegion<T>
 where
     MirrorRegion<T>: Region<Owned = T, Index = T>,
